@@ -51,23 +51,26 @@ struct OptRunner {
 	bool apply(const Op &o) {
 		int d = o.d, q = 3 - o.d;
 		if(o.name == "default") { f.make(d); s.make(d); }
-		else if(o.name == "value") { f.make(d, T(o.x)); s.make(d, T(o.x)); }
+		else if(o.name == "value" || (o.name == "value_copy" && !Copyable)) { f.make(d, T(o.x)); s.make(d, T(o.x)); }
+		else if(o.name == "value_conv") { f.make(d, (int)o.x); s.make(d, (int)o.x); }     // optional(U &&)
 		else if(o.name == "null") { f.make(d, frg::null_opt); s.make(d, std::nullopt); }
 		else if(o.name == "move_construct") { f.make(d, std::move(f.at(q))); s.make(d, std::move(s.at(q))); }
 		else if(o.name == "move_assign") { f.at(d) = std::move(f.at(q)); s.at(d) = std::move(s.at(q)); }
 		else if(o.name == "assign_null") { f.at(d) = frg::null_opt; s.at(d) = std::nullopt; }
 		else if(o.name == "assign_value") { f.at(d) = T(o.x); s.at(d) = T(o.x); }
 		else if(o.name == "emplace") { f.at(d).emplace(o.x); s.at(d).emplace(o.x); }
-		else if(o.name == "assign_conv") {
-			// from an optional of another, convertible type (engaged with x when i = 1)
+		else if(o.name == "assign_conv" || o.name == "assign_conv_copy") {
+			// from an optional of another, convertible type (engaged with x when i = 1);
+			// assign_conv_copy goes through operator=(const optional<U> &), assign_conv through operator=(optional<U> &&)
 			frg::optional<int> fo; std::optional<int> so;
 			if(o.i) { fo = (int)o.x; so = (int)o.x; }
-			if constexpr (Copyable) { if(o.x & 1) { f.at(d) = fo; s.at(d) = so; } else { f.at(d) = std::move(fo); s.at(d) = std::move(so); } }
+			if(o.name == "assign_conv_copy") { const auto &cf = fo; const auto &cs = so; f.at(d) = cf; s.at(d) = cs; }
 			else { f.at(d) = std::move(fo); s.at(d) = std::move(so); }
 		}
 		else if constexpr (Copyable) {
 			if(o.name == "copy_construct") { f.make(d, f.at(q)); s.make(d, s.at(q)); }
 			else if(o.name == "copy_assign") { f.at(d) = f.at(q); s.at(d) = s.at(q); }
+			else if(o.name == "value_copy") { const T t(o.x); f.make(d, t); s.make(d, t); }     // optional(const T &)
 			else return false;
 		} else return false;
 		return true;
@@ -76,7 +79,12 @@ struct OptRunner {
 		std::string r = "[";
 		for(int d = 1; d <= 2; d++) {
 			if(d == 2) r += ",";
-			if(!ref) { auto &h = f.at(d); bool e = h.has_value(); r += pair_json((e && (bool)h) ? 1 : (e != (bool)h ? 9 : 0), e ? value_of(*h) : 0); }
+			if(!ref) {
+				auto &h = f.at(d); const auto &ch = h; bool e = h.has_value();
+				// every accessor has to name the same held object
+				bool same = !e || (h.operator->() == &*h && &*ch == &*h);
+				r += pair_json(!same || e != (bool)h ? 9 : (e ? 1 : 0), e ? value_of(*h) : 0);
+			}
 			else { auto &h = s.at(d); r += pair_json(h.has_value() ? 1 : 0, h.has_value() ? value_of(*h) : 0); }
 		}
 		return r + "]";
@@ -154,11 +162,17 @@ struct VarRunner {
 		for(int d = 1; d <= 2; d++) {
 			if(d == 2) r += ",";
 			if(!ref) {
-				auto &h = f.at(d);
+				auto &h = f.at(d); const auto &ch = h;
+				auto vis = [](const auto &x) -> long long { if constexpr (std::is_same_v<std::decay_t<decltype(x)>, long long>) return x; else return value_of(x); };
 				if(!h) r += pair_json(h.tag() == F::invalid_tag ? 0 : 9, 0);
-				else if(h.template is<long long>()) r += pair_json(h.tag() == 0 ? 1 : 9, h.template get<long long>());
-				else if(h.template is<T>()) r += pair_json(h.tag() == 1 ? 2 : 9, value_of(h.template get<T>()));
-				else r += pair_json(3, value_of(h.template get<Small>()));
+				else {
+					long long via = h.apply(vis), cvia = ch.const_apply(vis);
+					long long got; int tag;
+					if(h.template is<long long>()) { tag = h.tag() == 0 ? 1 : 9; got = h.template get<long long>(); }
+					else if(h.template is<T>()) { tag = h.tag() == 1 ? 2 : 9; got = value_of(h.template get<T>()); }
+					else { tag = 3; got = value_of(h.template get<Small>()); }
+					r += pair_json(via == got && cvia == got ? tag : 9, got);
+				}
 			} else {
 				auto &h = s.at(d);
 				if(h.index() == 0) r += pair_json(0, 0);
